@@ -3,7 +3,9 @@
 cd "$(dirname "$0")/.." || exit 2
 fail=0
 for d in seeded/*/; do
-  id=$(basename $d); prop=$(python3 -c "import json;print(json.load(open('$d/meta.json'))['property'])")
+  id=$(basename $d); [ -f $d/patch.diff ] && grep -q '"kind": "behaviour-preserving' $d/meta.json && continue
+  prop=$(python3 -c "import json;m=json.load(open('$d/meta.json'));print(m.get('check_with',m['property']))")
+  if grep -q '"expected": "missed"' $d/meta.json; then echo "$id: recorded as not caught, skipped"; continue; fi
   tier=$(python3 -c "import json;print(json.load(open('$d/meta.json')).get('tier','quick'))"); arg=$prop; [ $tier = thorough ] && arg=$prop:thorough; line=$(tools/try_mutant.sh $d $arg | head -1)
   echo "$id: $line"
   case "$line" in *exit=1*) ;; *) fail=1; echo "   NOT CAUGHT";; esac
